@@ -102,6 +102,7 @@ type FuncReport struct {
 	Obs     []*Obligation
 	NLoops  int
 	Trusted []string
+	Callees []string
 	File    string
 	Lemmas  []string
 }
@@ -160,6 +161,10 @@ func verifyFuncHook(w *World, key string, hook func(*Enc)) (rep *FuncReport) {
 		rep.Trusted = append(rep.Trusted, t)
 	}
 	sort.Strings(rep.Trusted)
+	for c := range e.usedCallees {
+		rep.Callees = append(rep.Callees, c)
+	}
+	sort.Strings(rep.Callees)
 	for l := range e.usedLemmas {
 		rep.Lemmas = append(rep.Lemmas, l)
 	}
